@@ -12,8 +12,9 @@ type schedJSON struct {
 		C   int    `json:"c"`
 		Gap string `json:"gap"`
 	} `json:"inp"`
-	EofGap string   `json:"eofGap"`
-	Acts   []string `json:"acts"`
+	EofGap   string   `json:"eofGap"`
+	Acts     []string `json:"acts"`
+	Tolerant bool     `json:"tolerant"`
 }
 
 // FromSched converts a SCHED line printed by MC_ParserLife_Gen (or a TLC
@@ -23,7 +24,7 @@ func FromSched(line string) (*Scn, error) {
 	if err := json.Unmarshal([]byte(line), &s); err != nil {
 		return nil, err
 	}
-	sc := &Scn{Kind: "sched", End: "eof", Consumer: "sched", CloseAt: -1, EndLong: s.EofGap == "long", Sched: s.Acts}
+	sc := &Scn{Kind: "sched", End: "eof", Consumer: "sched", CloseAt: -1, EndLong: s.EofGap == "long", Sched: s.Acts, Tolerant: s.Tolerant}
 	for _, x := range s.Inp {
 		sc.Chunks = append(sc.Chunks, Chunk{Hex: Hex([]byte{byte(x.C)}), Long: x.Gap == "long"})
 	}
@@ -66,6 +67,15 @@ func manySeqs() string {
 
 var consumers = []string{"eager", "lazy", "slow", "stalled"}
 
+// scalars of two, three and four bytes; a chunk boundary may fall inside them
+var wide = []string{"é", "世", "😀", "ü"}
+
+// what an interrupted scalar may follow: a lone ESC (is it "promptly followed by further bytes"?), nothing, an open sequence
+var beforeCut = []string{"\x1b", "\x1b", "\x1b", "", "a", "\x1b[1", "\x1b]0;t", "\x1bO"}
+
+// control strings (and a control sequence) left open: the ESC that follows ends them
+var openers = []string{"\x1b]0;x", "\x1b]", "\x1bP1$rq", "\x1bPq", "\x1bP1;2", "\x1b_Gx", "\x1b^pm", "\x1bXsos", "\x1b[1;2", "\x1b[?1$"}
+
 // Timing generates plain scenarios around the Escape-key delay.
 func Timing(rng *rand.Rand) *Scn {
 	sc := &Scn{Kind: "timing", End: "eof", Consumer: consumers[rng.Intn(len(consumers))], Retain: rng.Intn(3) == 0, CloseAt: -1}
@@ -73,9 +83,11 @@ func Timing(rng *rand.Rand) *Scn {
 		sc.End = "error"
 	}
 	n := 1 + rng.Intn(5)
+	carry := "" // rest of a scalar that the previous chunk cut
 	for i := 0; i < n; i++ {
 		var s string
-		switch rng.Intn(6) {
+		next := ""
+		switch rng.Intn(9) {
 		case 0, 1: // lone ESC at the end of a chunk
 			s = chunkOf(rng)
 			if rng.Intn(2) == 0 {
@@ -83,11 +95,31 @@ func Timing(rng *rand.Rand) *Scn {
 			}
 			s += "\x1b"
 		case 2: // chunk starting with what could complete an ESC
-			s = []string{"[1;5A", "x", "OP", "[A", "\x1b", "]0;t\x07"}[rng.Intn(6)] + chunkOf(rng)
+			s = []string{"[1;5A", "x", "OP", "[A", "\x1b", "]0;t\x07", "\\", "\x1b\\", "\x1b\\x"}[rng.Intn(9)] + chunkOf(rng)
+		case 3, 4: // the chunk ends inside a multi-byte scalar (after a lone ESC, after nothing, inside a sequence)
+			if rng.Intn(2) == 0 {
+				s = chunkOf(rng)
+			}
+			w := wide[rng.Intn(len(wide))]
+			k := 1 + rng.Intn(len(w)-1)
+			s += beforeCut[rng.Intn(len(beforeCut))] + w[:k]
+			next = w[k:]
+			if rng.Intn(6) == 0 {
+				next = "" // the scalar stays incomplete: its bytes are symbols of their own
+			}
+		case 5: // a control string or sequence left open, then the ESC that ends it, at the end of a chunk
+			if rng.Intn(2) == 0 {
+				s = chunkOf(rng)
+			}
+			s += openers[rng.Intn(len(openers))] + "\x1b"
 		default:
 			s = chunkOf(rng)
 		}
-		sc.Chunks = append(sc.Chunks, Chunk{Hex: Hex([]byte(s)), Long: rng.Intn(2) == 0})
+		sc.Chunks = append(sc.Chunks, Chunk{Hex: Hex([]byte(carry + s)), Long: rng.Intn(2) == 0})
+		carry = next
+	}
+	if carry != "" {
+		sc.Chunks = append(sc.Chunks, Chunk{Hex: Hex([]byte(carry)), Long: rng.Intn(2) == 0})
 	}
 	sc.EndLong = rng.Intn(2) == 0
 	if rng.Intn(6) == 0 {
@@ -121,5 +153,49 @@ func Fixed() []*Scn {
 			)
 		}
 	}
+	hx := func(b string, long bool) Chunk { return Chunk{Hex: b, Long: long} }
+	for ci, cons := range consumers {
+		retain := ci%2 == 1
+		// bytes did follow the ESC promptly, though not yet a whole scalar: never the Escape key, for any gap inside the scalar
+		out = append(out,
+			mk("esc-then-cut-scalar", cons, retain, false, hx("1bc3", false), hx("a9", true)),
+			mk("esc-then-cut-scalar", cons, retain, true, hx("1bc3", false), hx("a9", false)),
+			mk("esc-then-cut-scalar", cons, retain, false, hx("61621be4", false), hx("b896", true), hx("78", false)),
+			mk("esc-then-cut-scalar", cons, retain, false, hx("1be4b8", false), hx("96", true)),
+			mk("esc-then-cut-scalar", cons, retain, true, hx("1bf09f", false), hx("98", true), hx("80", true)),
+			mk("esc-then-cut-scalar", cons, retain, true, hx("1bc3", false)),                  // silence, then the end: the lone byte is a symbol of its own
+			mk("esc-then-cut-scalar", cons, retain, false, hx("1bc3", false), hx("41", true)), // invalid: C3 and A are two symbols
+			// silence between the ESC and the first byte: the key press, then the scalar from ground whatever the gap inside it
+			mk("esc-gap-cut-scalar", cons, retain, false, hx("1b", false), hx("c3", true), hx("a9", true)),
+			mk("cut-scalar", cons, retain, false, hx("78c3", false), hx("a9", true), hx("1b5b41", false)),
+			mk("cut-scalar", cons, retain, false, hx("1b5b31c3", false), hx("a9", true), hx("41", false)),
+		)
+		// whatever follows a reported Escape key is parsed as by a parser that has seen nothing yet: no residue of the
+		// string or sequence that the ESC ended
+		afters := []string{"\x1b\\"}
+		if cons == "eager" || cons == "stalled" {
+			afters = []string{"\x1b\\", "\\", "[A", "\x1b]0;y\x07z", "x", "\x1b\x1b\\"}
+		}
+		for _, o := range openers {
+			for _, a := range afters {
+				out = append(out, mk("timeout-then-ground", cons, retain, false, h(o+"\x1b", false), h(a, true)))
+			}
+		}
+		out = append(out, mk("timeout-then-ground", cons, retain, true, h("\x1b]0;x\x1b", false), h("\x1b", true), h("\\", true)))
+	}
+	// Arrival times on the wire that do not wait for the parser, and a consumer that takes its time: the ESC is the last
+	// byte before a silence of six times the delay, but the parser is still held up by the full channel when the silence ends
+	wire := func(kind string, endLong bool, chunks ...Chunk) *Scn {
+		return &Scn{Kind: kind, End: "eof", Consumer: "paced", CloseAt: -1, Chunks: chunks, EndLong: endLong, Wire: true, PaceMs: 20}
+	}
+	out = append(out,
+		wire("wire-slow-consumer", false, h("abcdefgh\x1b", false), h("[A", true)),
+		wire("wire-slow-consumer", false, h("abcdefgh\x1b", false), h("\x1b[A", true)),
+		wire("wire-slow-consumer", true, h("abcdefgh\x1b", false)),
+		wire("wire-slow-consumer", false, h("\x1b[1;2H\x1b[3;4Habcdef\x1b", false), h("x", true)),
+		// controls: nothing is held up when the ESC arrives / the sequence arrives in one piece
+		wire("wire-slow-consumer", false, h("a\x1b", false), h("[A", true)),
+		wire("wire-slow-consumer", true, h("abcdefgh\x1b[A", false), h("x", true)),
+	)
 	return out
 }
